@@ -41,3 +41,39 @@ class FlatModel(GaussModel):
         xs = [float(kw[p]) for p in self.params]
         inb = all(self.lo <= x <= self.hi for x in xs)
         return 0.0, (0.0 if inb else -numpy.inf)
+
+
+class TDModel:
+    """Transdimensional probe model: components a1..aN are active (finite) or inactive (NaN),
+    k = number of active ones.  Pure function of its arguments."""
+
+    def __init__(self, n=4, sigma=1.0, blobs=False, log=False):
+        self.n = n
+        self.params = ['a%d' % i for i in range(1, n + 1)] + ['k']
+        self.sigma = sigma
+        self.blobs = blobs
+        self.calls = []
+        self.log = log
+
+    def __call__(self, **kw):
+        if self.log:
+            self.calls.append(dict(kw))
+        logl, logp = 0.0, 0.0
+        nact = 0
+        for i in range(1, self.n + 1):
+            v = float(kw['a%d' % i])
+            if v != v:
+                continue
+            nact += 1
+            if not (0.0 <= v <= 4.0):
+                logp = -numpy.inf
+            else:
+                logp += -math.log(4.0)
+            logl += -0.5 * ((v - 0.5 * i) / self.sigma) ** 2
+        k = int(kw['k'])
+        if k != nact or not (0 <= k <= self.n):
+            logp = -numpy.inf
+        logl -= 0.3 * nact
+        if self.blobs:
+            return logl, logp, {'b0': float(nact), 'b1': logl * 2.0}
+        return logl, logp
